@@ -28,6 +28,11 @@ STABLE_ROOTS = ["DE", "DEd", "SHADE", "LHS", "SOB"]
 STABLE_ALL = STABLE_ROOTS + ["CMAf", "CMAw", "CMAs", "LOC"]
 
 
+def mirrored(a, b):
+    """a == -b, with NaN (undefined objective) mirrored to NaN."""
+    return (a != a and b != b) or a == -b
+
+
 def twin(res, unit, desc):
     xs = []
     for mx in (False, True):
@@ -53,7 +58,7 @@ def twin(res, unit, desc):
     n = min(len(la), len(lb))
     div = None
     for i in range(n):
-        if la.level[i] != lb.level[i] or la.x[i].tobytes() != lb.x[i].tobytes() or not (la.v[i] == -lb.v[i]):
+        if la.level[i] != lb.level[i] or la.x[i].tobytes() != lb.x[i].tobytes() or not mirrored(la.v[i], lb.v[i]):
             div = i
             break
     if div is None and len(la) != len(lb):
@@ -80,12 +85,13 @@ def twin(res, unit, desc):
     for (_, da), (_, db) in zip(a.tree.all_demes, b.tree.all_demes):
         for ga, gb in zip(da.history, db.history):
             if len(ga) != len(gb) or any(
-                np.asarray(i.genome).tobytes() != np.asarray(j.genome).tobytes() or not (i.fitness == -j.fitness) for i, j in zip(ga, gb)
+                np.asarray(i.genome).tobytes() != np.asarray(j.genome).tobytes() or not mirrored(i.fitness, j.fitness) for i, j in zip(ga, gb)
             ):
                 res.add_violation(ID, f"C13/twin-history-differs:{type(da).__name__}", f"deme {da.id}: histories differ between the two formulations", {}, rep)
                 return
     ba, bb = a.tree.best_individual, b.tree.best_individual
-    if np.asarray(ba.genome).tobytes() != np.asarray(bb.genome).tobytes():
+    # among individuals whose fitness is NaN the library picks at random (by design): nothing to compare then
+    if ba.fitness == ba.fitness and np.asarray(ba.genome).tobytes() != np.asarray(bb.genome).tobytes():
         res.add_violation(ID, "C13/twin-best-differs", "the two formulations report different best individuals", {}, rep)
     res.flags["twin pair identical"] += 1
     if len(res.samples) < 2:
@@ -276,6 +282,11 @@ def units(tier, seed):
                 k += 1
                 descs.append(dict(engines=list(eng), gens=1 + k % 2, Mh=4, seed=s, sprout={"kind": sk, "L": 2}, obj=("sphere_in", "twofunnel", "lin_corner")[k % 3],
                                   box=("B_asym", "B_sym", "B_3d")[(k // 3) % 3], lsc=[lscs[(k + i) % 3] for i in range(len(eng))], hib=bool(k % 4 == 0)))
+    # objectives undefined (NaN) on part of the box: the direction switches must treat NaN alike
+    for eng in [e for e in shapes if not any(v.startswith("CMA") or v == "LOC" for v in e)]:
+        for obj in ("nanhole", "nanhalf"):
+            k += 1
+            descs.append(dict(engines=list(eng), gens=2, Mh=3, seed=s + k % 3, sprout={"kind": ("simple", "nbc")[k % 2], "L": 2}, obj=obj, box="B_asym", pop=(6, 10)[k % 2]))
     us = [{"kind": "twin", "descs": c} for c in chunks(descs, 12)]
     for n in (2, 3, 4, 5) if tier == "quick" else (2, 3, 4, 5, 6):
         us.append({"kind": "decisions", "n": n})
